@@ -2,6 +2,9 @@
 """Regenerates MANIFEST.json from the table below (kept in one place so it stays valid)."""
 import json, subprocess
 CHECKS = {
+ "C05": dict(level="exploration", tech="history oracle over fabricated kad progress events fed to the real SwarmDriver handlers for real QueryIds, with 1-4 real callers (some cancelled) in Network::get_record_from_network; merges recomputed independently",
+             text="Random reply sequences (distinct / duplicate / self responders, 1-3 content versions of four kinds, every terminal event, optional targets, all quorum settings) are delivered while callers attach before, between and after replies; each caller's outcome is judged against distinct-responder counts, target, deterministic merges, completeness of split outcomes and exactly-one-outcome.",
+             note="Events are fabricated (the swarm is never polled); retry strategy None so one caller = one query outcome.", ref="DESIGN.md §4 C05"),
  "C07": dict(level="exploration", tech="version-history + reference-set oracle on a real node (driver + store + Node validation + vault stub): rounds of 1-3 simultaneous deliveries per key over the paid, unpaid-update and replication paths; the stored value is sampled after every local command touching the key and at quiescence",
              text="Scratchpads (fresh / stale / equal counters, unsigned, foreign signer, foreign owner, swapped payload), transaction vectors (valid, forged, foreign, duplicates) and register replicas (permitted / unauthorised / forged / oversized ops, other base) are delivered; stored content must always be owner-signed, never regress, and reflect every accepted or unconditional valid delivery. Lost updates inside rounds of concurrent deliveries are a recorded structural defect (seven signatures); everything else is armed.",
              note="Only Ok deliveries and valid paid/replicated deliveries are required to be reflected; same-key disk tasks and commands keep spawn order.", ref="DESIGN.md §4 C07"),
